@@ -932,6 +932,18 @@ func (t *State) verifyDAGTxs(blockHeight int64, txs []*pb.Transaction, isRootTx 
 		}
 		txid := string(tx.GetTxid())
 		if unconfirmToConfirm[txid] == false {
+			if tx.Coinbase && !isPlainAwardTx(tx) {
+				// an award tx only creates outputs; one that spends outputs, reads or writes keys or
+				// invokes contracts would do so unsigned, since award txs skip ImmediateVerifyTx
+				t.log.Warn("coinbase tx with inputs, rwset or contract requests", "txid", fmt.Sprintf("%x", tx.Txid))
+				return ErrInvalidCoinbaseTx
+			}
+			if tx.Autogen && !t.verifyAutogenTxValid(tx) {
+				// an auto generated tx always carries tx inputs/outputs ext (checked against the one this
+				// node generates); any other tx flagged Autogen would skip every verification below
+				t.log.Warn("autogen tx without tx inputs/outputs ext", "txid", fmt.Sprintf("%x", tx.Txid))
+				return ErrInvalidAutogenTx
+			}
 			if t.verifyAutogenTxValid(tx) {
 				// 校验auto tx
 				if ok, err := t.ImmediateVerifyAutoTx(blockHeight, tx, isRootTx); !ok {
@@ -959,6 +971,11 @@ func (t *State) verifyDAGTxs(blockHeight int64, txs []*pb.Transaction, isRootTx 
 	}
 
 	return nil
+}
+
+// isPlainAwardTx check that a tx flagged Coinbase does nothing but create outputs
+func isPlainAwardTx(tx *pb.Transaction) bool {
+	return len(tx.TxInputs) == 0 && len(tx.TxInputsExt) == 0 && len(tx.TxOutputsExt) == 0 && len(tx.ContractRequests) == 0
 }
 
 // verifyAutogenTxValid verify if a autogen tx is valid, return true if tx is valid.
